@@ -44,6 +44,16 @@ class OpUnit(ApiUnit):
                     interp.ctx.assume(Not(interp.eq(out[i][0], out[j][0])))
         return out
 
+    def fresh_oids(self, interp, n, name="oid%d"):
+        oids = [interp.ctx.fresh_oid(name % i) for i in range(n)]
+        if getattr(self, "distinct_response", False):
+            # LARGE shapes: pairwise distinct requested OIDs as well (code that keys a dictionary by them forks on every pair
+            # otherwise; repeated OIDs are covered by the small shapes)
+            for i in range(n):
+                for j in range(i + 1, n):
+                    interp.ctx.assume(Not(interp.eq(oids[i], oids[j])))
+        return oids
+
     def check_common_request(self, interp, seam, cls_name, oids, values=None):
         """The single PDU that reached the seam is the intended request."""
         ctx = interp.ctx
@@ -101,7 +111,7 @@ class MultiGet(OpUnit):
         ctx = interp.ctx
         seam = SendSeam(self, lambda i, pdu, n: self.fresh_response(i, self.kr))
         seam.install(self.rt, interp)
-        oids = [ctx.fresh_oid("oid%d" % i) for i in range(self.k)]
+        oids = self.fresh_oids(interp, self.k)
         result, exc = self.run_call(interp, list(oids))
         self.check_common_request(interp, seam, "GetRequest", oids)
         if self.kr != self.k:
@@ -443,8 +453,10 @@ def units(tier):
     # LARGE shapes: one request well above any size the small shapes reach (a chunk size, a cap, a threshold that only acts on
     # long lists changes the behaviour of these and of nothing above)
     big = LARGE_THOROUGH if tier == "thorough" else LARGE_QUICK
-    us.append(MultiGet(big, big))
-    us.append(MultiGet(big, big - 1))
+    for u in (MultiGet(big, big), MultiGet(big, big - 1)):
+        u.distinct_response = True
+        u.name = u.name[:-1] + ",request and answer OIDs pairwise distinct]"
+        us.append(u)
     us.append(MultiGetNext(LARGE_GETNEXT, LARGE_GETNEXT))
     ld = 26 if tier == "thorough" else 12
     for u in (MultiSet(26, 26), BulkGet(2, ld // 2 - 1, 2, ld), BulkGet(0, ld, 1, ld)):
